@@ -233,7 +233,7 @@ PROPS = {
                    'to print, also under --with-nth. The real binary is run under pipes and tmux; stdout bytes and exit status are '
                    'compared with the model and judged against "every printed record is an input record byte for byte, '
                    'terminated as requested, exit 0 iff something was output".',
-        level_note='Partial: --select-1 / --exit-0 are not yet driven (--accept-nth with range expressions and --expect are, in the sessions); exit status 2 on option errors is '
+        level_note='Partial: --select-1 / --exit-0 are driven on inputs with at most one match (more matches start the finder: the sessions); --accept-nth with range expressions only (no {..} templates); exit status 2 on option errors is '
                    'covered under C17. Fixed while building: F13.',
         technique='Lean 4 proof (decision-table theorems over the session model) + process-level correspondence (pipes, tmux)',
     ),
